@@ -112,8 +112,9 @@ package app
 //@   assigns slept()
 
 // ---------- life-cycle steps ----------
+//@ define isDefinedStr(s string) bool = len(trimSpace(s)) > 0
 //@ func isStringDefined
-//@   ensures result ==> str != ""
+//@   ensures result <==> isDefinedStr(str)
 //@   assigns nothing
 
 //@ func (p *Process) onProcessStart
@@ -154,10 +155,11 @@ package app
 //@   ensures ready-released: cancelled(p.procReadyCtx)
 //@   ensures logready-released: cancelled(p.procLogReadyCtx)
 //@   ensures started-released: closed(p.procStartedChan) || cancelled(p.procRunCtx)
+//@   ensures nocause: okCancels() == old(okCancels())
 //@   ensures unlocked(p)
 //@   assigns p.done, p.waitForStoppedFn, p.procState.Status, p.procState.ExitCode, p.procState.Health, health.Prober.stopped[*], loggerOpen(p.logger),
 //@           p.procState.SystemTime, p.procState.Age, p.procState.Name, p.procState.Mem, p.procState.CPU, p.procState.IsRunning, p.procState.IsElevated, p.procState.PasswordProvided,
-//@           cancelled[*], causeOk[*]
+//@           cancelled[*], causeOk[*], okCancels()
 
 //@ func (p *Process) wontRun
 //@   requires procWF(p) && unlocked(p)
@@ -169,3 +171,66 @@ package app
 //@ func (p *Process) setStartTime
 //@   requires !held(p.timeMutex)
 //@   assigns p.startTime
+
+// ---------- C06: stopping ----------
+// the shutdown cause handed to the log-ready context does not wrap context.Canceled (no %w verb in the format)
+//@ axiom fmt_shutdown_cause: !hasVerbW("process %s was shut down") && !hasVerbW("process %s ended")
+//@ func (p *Process) getProcessEnvironment
+//@   sets lastProcEnv() := result
+//@   assigns nothing
+
+//@ func (p *Process) forceKillOnTimeout
+//@   requires !held(p.mtxStopFn)
+//@   ensures atmost: stops() <= old(stops()) + 1 && stops() >= old(stops())
+//@   ensures kill: stops() == old(stops()) + 1 ==> stopSig(old(stops())) == 9 && stopParentOnly(old(stops())) == p.procConf.ShutDownParams.ParentOnly
+//@   ensures notbefore: stops() == old(stops()) + 1 ==> deadlineHit(p.waitForStoppedCtx) && timeoutOf(p.waitForStoppedCtx) == p.procConf.ShutDownParams.ShutDownTimeout * 1000000000
+//@   ensures cancelled-nokill: !deadlineHit(p.waitForStoppedCtx) ==> stops() == old(stops())
+//@   ensures !held(p.mtxStopFn)
+//@   assigns p.waitForStoppedCtx, p.waitForStoppedFn, stops(), stopSig(stops()), stopParentOnly(stops()), ctxCount(), lastTimeout(), slept()
+
+//@ func (p *Process) doConfiguredStop
+//@   param cancel as cancelfunc
+//@   let eff = ite(params.ShutDownTimeout == 0, 10, params.ShutDownTimeout)
+//@   ensures ran: runs() == old(runs()) + 1 && ranEnv() == lastProcEnv() && ranDir() == p.procConf.WorkingDir
+//@   ensures timeout: lastTimeout() == eff * 1000000000
+//@   ensures atmost: stops() <= old(stops()) + 1
+//@   ensures kill-iff-failed: stops() == old(stops()) + 1 <==> lastRunFailed()
+//@   ensures kill: stops() == old(stops()) + 1 ==> stopSig(old(stops())) == 9
+//@   assigns runs(), ranEnv(), ranDir(), lastRunFailed(), lastProcEnv(), stops(), stopSig(stops()), stopParentOnly(stops()), ctxCount(), lastTimeout(), slept()
+
+//@ func (p *Process) stopProcess
+//@   requires procWF(p) && unlocked(p)
+//@   param runCancelFn as cancelfunc
+//@   param readyCancelFn as cancelfunc
+//@   param readyLogCancelFn as cancelcausefunc
+//@   let st0 = p.procState.Status
+//@   let sp = p.procConf.ShutDownParams
+//@   ensures runctx: cancelled(p.procRunCtx)
+//@   ensures notrunning: !isRunningState(st0) ==> stops() == old(stops()) && runs() == old(runs()) && result == nil
+//@   ensures pending: st0 == "Pending" ==> p.done && p.procState.Status == "Terminating"
+//@   ensures terminating: isRunningState(st0) ==> p.procState.Status == "Terminating" && p.procState.Health == "-"
+//@   ensures readiness: isRunningState(st0) && cancelReadinessFuncs ==> cancelled(p.procLogReadyCtx) && (p.readyProber != nil ==> cancelled(p.procReadyCtx))
+//@   ensures logcause: okCancels() == old(okCancels())
+//@   ensures command: isRunningState(st0) && isDefinedStr(sp.ShutDownCommand) ==> runs() == old(runs()) + 1 && ranEnv() == lastProcEnv() && ranDir() == p.procConf.WorkingDir
+//@   ensures command-kill: isRunningState(st0) && isDefinedStr(sp.ShutDownCommand) ==> (stops() == old(stops()) + 1 <==> lastRunFailed()) && stops() <= old(stops()) + 1 && (stops() == old(stops()) + 1 ==> stopSig(old(stops())) == 9)
+//@   ensures signal: isRunningState(st0) && !isDefinedStr(sp.ShutDownCommand) ==> stops() >= old(stops()) + 1 && stopSig(old(stops())) == sp.Signal && stopParentOnly(old(stops())) == sp.ParentOnly && runs() == old(runs())
+//@   ensures escalation: isRunningState(st0) && !isDefinedStr(sp.ShutDownCommand) && stops() > old(stops()) + 1 ==> stops() == old(stops()) + 2 && sp.ShutDownTimeout != 0 && stopSig(old(stops()) + 1) == 9 && deadlineHit(p.waitForStoppedCtx) && timeoutOf(p.waitForStoppedCtx) == sp.ShutDownTimeout * 1000000000
+//@   ensures unlocked(p)
+
+//@ func (p *Process) shutDown
+//@   requires procWF(p) && unlocked(p)
+//@   ensures cancelled(p.procRunCtx) && unlocked(p)
+//@ func (p *Process) internalStop
+//@   requires procWF(p) && unlocked(p)
+//@   ensures cancelled(p.procRunCtx) && unlocked(p)
+//@ func (p *Process) shutDownNoRestart
+//@   requires procWF(p) && unlocked(p)
+//@   ensures abool(p.isStopped) && cancelled(p.procRunCtx) && unlocked(p)
+
+//@ func (p *Process) getName
+//@   ensures result == p.procConf.ReplicaName
+//@   assigns nothing
+//@ func (p *Process) getStatusName
+//@   requires !held(p.stateMtx) && !held(p.timeMutex)
+//@   ensures result == p.procState.Status
+//@   assigns p.procState.SystemTime, p.procState.Age, p.procState.Name, p.procState.Mem, p.procState.CPU, p.procState.IsRunning, p.procState.IsElevated, p.procState.PasswordProvided
